@@ -29,6 +29,11 @@ type c13Case struct {
 	Closed bool      `json:"closed,omitempty"` // the server is closed before the probe
 	Src    string    `json:"src"`
 	Dst    string    `json:"dst"`
+	// Twins: that many identical probe connections arrive back to back (no
+	// settling in between): the first makes the others arrive "while that peer
+	// already has an inbound connection in progress"
+	Twins  int     `json:"twins,omitempty"`
+	Delays []int64 `json:"delays,omitempty"`
 }
 
 func c13Spec(p c13Peer, i int) world.PeerSpec {
@@ -72,7 +77,7 @@ func c13Prop(t *testing.T, r *hx.Run) func(c c13Case) hx.Verdict {
 		if target >= 0 {
 			st = c.Peers[target].State
 		}
-		v := hx.Verdict{Class: fmt.Sprintf("admit=%v/%s/%s", admit, st, why)}
+		v := hx.Verdict{Class: fmt.Sprintf("admit=%v/%s/%s/twins=%v", admit, st, why, c.Twins > 0)}
 		if target >= 0 {
 			v.NT = fmt.Sprintf("%+v", c)
 		}
@@ -83,7 +88,7 @@ func c13Prop(t *testing.T, r *hx.Run) func(c c13Case) hx.Verdict {
 			}
 		}
 		o := world.Run(t, func() {
-			w, err := world.New("10.0.0.1", nil)
+			w, err := world.New("10.0.0.1", c.Delays)
 			if err != nil {
 				fail("setup", "%v", err)
 				return
@@ -167,7 +172,35 @@ func c13Prop(t *testing.T, r *hx.Run) func(c c13Case) hx.Verdict {
 			}
 			evBefore := w.Rec.Len()
 			probe := w.Inbound(c.Src, c.Dst)
+			var twins []*memnet.Conn
+			for k := 0; k < c.Twins; k++ {
+				twins = append(twins, w.Inbound(c.Src, c.Dst))
+			}
 			w.Settle()
+			if len(twins) > 0 {
+				// exactly one of the identical connections may be served (when
+				// admission is due at all); all the others are closed with zero bytes
+				served := 0
+				for _, cn := range append([]*memnet.Conn{probe}, twins...) {
+					st := cn.Snapshot()
+					switch {
+					case len(st.Bytes()) > 0 && !st.LocalClosed:
+						served++
+					case len(st.Writes) == 0 && st.LocalClosed:
+					default:
+						fail("twin-neither-served-nor-closed", "%d identical connections %s -> %s arrived back to back; connection %d: bytes=%d closed=%v (must be either served or closed with zero bytes)", 1+c.Twins, c.Src, c.Dst, st.ID, len(st.Bytes()), st.LocalClosed)
+						return
+					}
+				}
+				want := 0
+				if admit {
+					want = 1
+				}
+				if served != want {
+					fail("twin-served-count", "%d identical connections %s -> %s arrived back to back: %d were handed to a session, want %d", 1+c.Twins, c.Src, c.Dst, served, want)
+				}
+				return
+			}
 			ps := probe.Snapshot()
 			if admit {
 				msgs, perr := wire.ParseStream(ps.Bytes())
@@ -270,6 +303,14 @@ func genC13(rt *rapid.T) c13Case {
 		}
 	default:
 		c.Dst = right
+	}
+	if rapid.IntRange(0, 3).Draw(rt, "twins") == 0 {
+		c.Twins = rapid.IntRange(1, 3).Draw(rt, "ntwins")
+		if rapid.Bool().Draw(rt, "delays") {
+			for i, k := 0, rapid.IntRange(1, 6).Draw(rt, "ndelays"); i < k; i++ {
+				c.Delays = append(c.Delays, rapid.Int64Range(0, 3).Draw(rt, "delay"))
+			}
+		}
 	}
 	return c
 }
